@@ -173,8 +173,8 @@ def run(prop, tier, seed, t0):
     bins, notes, failed = plan.bins_for(cfgs, ('rel', 'chk') if tier == 'thorough' else ('rel',))
     if failed:
         return plan.fail_build(prop, failed)
-    size = 64 if tier == 'quick' else 2400
-    nt = 16 if tier == 'quick' else 48
+    size = 64 if tier == 'quick' else 14400
+    nt = 16 if tier == 'quick' else 96
     tasks = plan.spread_tasks('vlib.props.c08', 'task', prop, seed, size, plan.plain(bins), ntasks=nt, long_msgs=True)
     m = core.run_tasks(tasks)
     return core.finish(prop, tier, seed, t0, m,
